@@ -1793,7 +1793,7 @@ func (g *gen) history(state string) input {
 var states = []string{"idle", "midrun", "done", "mixed"}
 
 func generate(rng *rand.Rand, tier string) []interface{} {
-	nproc, nnet := 200, 20
+	nproc, nnet := 300, 28
 	if tier != "quick" {
 		nproc, nnet = 6000, 400
 	}
